@@ -245,6 +245,10 @@ class SqlalchemyRender:
             method = opmap.get(t.op.upper())
             if method is None:
                 raise NotImplementedError(f'Unknown unary operation: {t.op}')
+            if method == '__neg__' and isinstance(t.args[0], ast.Constant) \
+                    and isinstance(t.args[0].value, (int, float)) and t.args[0].value < 0:
+                # -(-1) would be rendered --1, which starts a comment
+                arg = sa.sql.elements.Grouping(sa.literal(t.args[0].value))
             col = getattr(arg, method)()
             if isinstance(col, sa.sql.elements.AsBoolean):
                 # NOT over an expression sqlalchemy types as Boolean is compiled to (x) = 0 / (x) = 1 for
